@@ -117,18 +117,22 @@ def apiAnswer (mode : String) (d : Desc) : String :=
   let hs := clsOf mode (v.filter (fun r => r == .powTarget || r == .powHash || r == .timeNew))
   let pow := clsOf mode (v.filter (fun r => r == .powTarget || r == .powHash))
   let hc := clsOf mode (v.filter (fun r => r == .bits || r == .timeOld || r == .timewarp || r == .version))
-  let tx := joinC (txs.map txSanityClass)
+  let okRej := fun (c : String) => if mode == "VC" || c == "ok" then c else "rej"
+  let tx := joinC (txs.map (fun t => okRej (txSanityClass t)))
   let fin := joinC (txs.map (fun t => b01 (t.final d.C.height d.lockCutoff)))
   let sl := joinC (txs.map (fun t =>
     -- `CalcSequenceLock` reads the CSV deployment state as of the tip, not of the next block
-    if t.ins.any (fun i => !i.null && !i.avail) then "-"
-    else b01 (!(deployed d.P.csvH (d.C.height - 1)) || t.seqLocksOk d.C.height d.C.prevMTP)))
+    if t.ins.any (fun i => !i.null && !i.avail) || (deployed d.P.csvH (d.C.height - 1) != d.csv) then "-"
+    else b01 (!d.csv || t.seqLocksOk d.C.height d.C.prevMTP)))
   let scr := joinC (txs.map (fun t =>
     if t.isCoinbase || t.ins.any (fun i => i.null || !i.avail) then "-"
     else b01 (t.ins.all (fun i => i.scriptOk d.flags))))
-  let ins := joinC (txs.map (fun t => txInputsResult t d.C.height d.P.maturity))
+  let ins := joinC (txs.map (fun t =>
+    let r := txInputsResult t d.C.height d.P.maturity
+    if mode == "VC" || r.startsWith "fee:" then r else "rej"))
   let so := joinC (txs.map (fun t => toString t.legacySigops))
-  let cost := fun (b16 sw : Bool) => joinC (txs.map (fun t => txSigOpCostResult t b16 sw))
+  let unav := fun (t : TxFacts) => !t.isCoinbase && t.ins.any (fun i => i.null || !i.avail)
+  let cost := fun (b16 sw : Bool) => joinC (txs.map (fun t => if unav t then "-" else txSigOpCostResult t b16 sw))
   let cbh := match txs with
     | t :: _ => if t.ins.isEmpty then "-" else if d.B.cbHeight = d.C.height then "ok" else "bip34"
     | [] => "-"
@@ -142,7 +146,7 @@ def apiAnswer (mode : String) (d : Desc) : String :=
   -- `CountP2SHSigOps`: the first missing input is an error
   let p2 := joinC (txs.map (fun t =>
     if t.isCoinbase then "0"
-    else if t.ins.any (fun i => i.null || !i.avail) then "missing"
+    else if t.ins.any (fun i => i.null || !i.avail) then "-"
     else toString (sumInt (t.ins.map (·.p2shSigops)))))
   s!"w={d.weight} cbh={cbh} wc={wc} sub={subsidy d.C.height d.P.subsidyInterval} sc={scr} p2={p2} " ++
   s!"hv={b01 (decide (2 ≤ d.H.version))}"
@@ -179,14 +183,13 @@ def handleOne : List String → String
   | _ => "bad-op"
 
 def soloTx (h cut : Int) (t : TxFacts) (total : Int) : String :=
-  s!"san={txSanityClass t} cb={b01 t.isCoinbase} so={t.legacySigops} fin={b01 (t.final h cut)} " ++
+  s!"san={if txSanityClass t == "ok" then "ok" else "rej"} cb={b01 t.isCoinbase} so={t.legacySigops} fin={b01 (t.final h cut)} " ++
   s!"w={t.strippedSize * (WITNESS_SCALE_FACTOR - 1) + total}"
 
 def cbhAnswer (script : List Nat) (want : Int) : String :=
   let e := match extractHeight script with
     | .ok h => s!"h:{h}"
-    | .error .missing => "missing"
-    | .error .bad => "bad"
+    | .error _ => "rej"
   s!"{e} chk={if checkSerializedHeight script want then "ok" else "bip34"}"
 
 def handle : List String → String
